@@ -831,6 +831,13 @@ fn gen_c04(r: &mut Rng, seed: u64) -> Scenario {
         events.push(Event { trig, what: EventKind::KillProcess });
         tags.push("killed-while-suspended".into());
     }
+    if r.chance(1, 6) {
+        // a thread name that is not UTF-8 (legal: the kernel shows it raw on the `Name:` line of
+        // /proc/<tid>/status, which the writer reads for every thread): the thread is still listed
+        let ti = r.below(n as u64) as usize;
+        sc.world.threads[ti].comm = B(invalid_utf8_comm(r));
+        tags.push("name-not-utf8".into());
+    }
     sc.events = events;
     sc.sched.steps_per_call = r.range(1, 7) as u32;
     sc.tags = tags;
@@ -1282,8 +1289,15 @@ fn gen_c20(r: &mut Rng, seed: u64) -> Scenario {
                 "ptr-last-word"
             }
             4 => {
-                b.world.plants.push((first_word - 16, inside)); // below the stack pointer only
-                "ptr-below-sp"
+                if sp_unaligned {
+                    // the aligned word that begins below a misaligned stack pointer and runs across it:
+                    // not a word at or above the stack pointer
+                    b.world.plants.push((first_word - 8, inside));
+                    "ptr-word-across-sp"
+                } else {
+                    b.world.plants.push((first_word - 16, inside)); // below the stack pointer only
+                    "ptr-below-sp"
+                }
             }
             5 => {
                 b.world.plants.push((first_word + 8 * r.range(1, 20) + 3, inside)); // unaligned only
@@ -3131,6 +3145,21 @@ fn gen_over_1gib(r: &mut Rng, prop: &str, seed: u64) -> Scenario {
     sc
 }
 
+/// The crash context names a thread that is not a thread of the target: the exception stream then
+/// writes its own copy of the CPU context (the path that does not reuse a listed thread's context).
+fn blame_unlisted_thread(r: &mut Rng, sc: &mut Scenario) {
+    if !r.chance(1, 5) {
+        return;
+    }
+    if let Workload::Dump(p) = &mut sc.workload {
+        if let Some(cs) = p.opts.crash.as_mut() {
+            cs.tid = PID + 5000;
+            p.opts.blamed = PID + 5000;
+            sc.tags.push("blamed-not-listed".into());
+        }
+    }
+}
+
 pub fn generate(prop: &str, verif_seed: u64, idx: u64) -> Scenario {
     let seed = derive_seed(verif_seed, prop, idx);
     let mut r = Rng::new(seed);
@@ -3143,6 +3172,7 @@ pub fn generate(prop: &str, verif_seed: u64, idx: u64) -> Scenario {
             if benign && r.chance(1, 10) {
                 kill_at_linker_read(&mut r, &mut sc);
             }
+            blame_unlisted_thread(&mut r, &mut sc);
             sc
         }
         "C02" => gen_c02(&mut r, seed),
@@ -3202,6 +3232,7 @@ pub fn generate(prop: &str, verif_seed: u64, idx: u64) -> Scenario {
             if r.chance(1, 10) {
                 kill_at_linker_read(&mut r, &mut sc);
             }
+            blame_unlisted_thread(&mut r, &mut sc);
             sc
         }
         "C19" => {
